@@ -32,13 +32,13 @@ Fixpoint subst (path s : list byte) : list byte :=
   end.
 
 
-(* the path handed to the command: as visited, or ./basename for -execdir
-   (Path::new(".").join(file_name), or "." joined with the whole path when it has no file name) *)
+(* the path handed to the command: as visited, or ./basename for -execdir: "." joined with the last component
+   as spelled (also ".." or "."; "/" stays "/"), or with the whole path when it has no component *)
 Definition exec_path (execdir : bool) (path : list byte) : list byte :=
   if execdir then
-    match file_name path with
-    | Some f => PathModel.join [DOT] f
-    | None => PathModel.join [DOT] path
+    match rev (components path) with
+    | c :: _ => PathModel.join [DOT] (comp_text path c)
+    | [] => PathModel.join [DOT] path
     end
   else path.
 (* the working directory of the child: None = unchanged *)
